@@ -649,11 +649,46 @@ class ISD(model.Document):
               child_element
         )
 
-        if isd_element_child is not None:
+        if isinstance(isd_element_child, list):
+          # the base text of a ruby container whose annotation is not presented
+          isd_element_children.extend(isd_element_child)
+        elif isd_element_child is not None:
           isd_element_children.append(isd_element_child)
 
     if len(isd_element_children) > 0:
-      isd_element.push_children(isd_element_children)
+
+      try:
+
+        isd_element.push_children(isd_element_children)
+
+      except ValueError:
+
+        # pruning (timing, region, display, white space) has left a ruby container without a complete pattern
+
+        if isinstance(isd_element, model.Rtc):
+          # the annotation container is not presented
+          return None
+
+        if not isinstance(isd_element, model.Ruby):
+          raise
+
+        # the annotation is not presented: keep the text of the base, as spans of the paragraph
+
+        base_spans = []
+
+        for isd_child in isd_element_children:
+          if isinstance(isd_child, model.Rb):
+            isd_rbs = [isd_child]
+          elif isinstance(isd_child, model.Rbc):
+            isd_rbs = list(isd_child)
+          else:
+            isd_rbs = []
+          for isd_rb in isd_rbs:
+            for isd_span in list(isd_rb):
+              isd_rb.remove_child(isd_span)
+              base_spans.append(isd_span)
+
+        return base_spans if len(base_spans) > 0 else None
 
       if isinstance(isd_element, (model.P, model.Rt, model.Rtc)):
         text_node_list = []
